@@ -277,7 +277,7 @@ func peerKey(i int) *k1.PrivateKey {
 	return k1.PrivKeyFromBytes(h[:])
 }
 
-var peerAlterations = []string{"bare_signature_duty", "other_duty_type", "leaf", "leaf", "leaf", "signed_by_other_share", "other_validator_pubkey", "unknown_pubkey", "share_idx_0", "share_idx_n+1", "share_idx_negative", "claims_receivers_share_idx", "claims_third_share_idx", "zero_signature", "gated_slot", "invalid_duty_type", "wrong_domain", "other_fork", "zero_domain_while_domain_unavailable"}
+var peerAlterations = []string{"bare_signature_duty", "other_duty_type", "leaf", "leaf", "leaf", "signed_by_other_share", "other_validator_pubkey", "unknown_pubkey", "share_idx_0", "share_idx_n+1", "share_idx_negative", "claims_receivers_share_idx", "claims_third_share_idx", "zero_signature", "gated_slot", "gated_slot", "invalid_duty_type", "wrong_domain", "other_fork", "zero_domain_while_domain_unavailable"}
 
 func TestC10PeerPath(t *testing.T) {
 	vstat.Rule("C10", rulePeer)
@@ -304,7 +304,16 @@ func TestC10PeerPath(t *testing.T) {
 			must(err)
 			peers = append(peers, id)
 		}
-		now := cl.bn.GenesisTime.Add(1000 * cl.bn.SlotDur)
+		// the node's clock: any slot of an epoch (first, middle, last) and any instant inside the slot
+		alt := peerAlterations[rapid.IntRange(0, len(peerAlterations)-1).Draw(rt, "alteration")]
+		slotChoices, instChoices := []int{0, 1, 13, 30, 31, 40, 63}, []int{0, 1, 250, 499, 500, 501, 750, 999}
+		if alt == "gated_slot" {
+			// where the window's edge moves: around the epoch boundary, around the middle and the end of a slot
+			slotChoices, instChoices = []int{31, 63, 30, 0, 32}, []int{0, 499, 500, 999}
+		}
+		nowSlot := 960 + uint64(rapid.SampledFrom(slotChoices).Draw(rt, "nowSlotOffset"))
+		inSlot := time.Duration(rapid.SampledFrom(instChoices).Draw(rt, "nowPermille")) * cl.bn.SlotDur / 1000
+		now := cl.bn.GenesisTime.Add(time.Duration(nowSlot)*cl.bn.SlotDur + inSlot)
 		gater, err := core.NewDutyGater(ctx, cl.bn, core.WithDutyGaterForT(t, func() time.Time { return now }, 2))
 		must(err)
 		verifier, err := parsigex.NewEth2Verifier(cl.bn, cl.pubshares())
@@ -393,7 +402,6 @@ func TestC10PeerPath(t *testing.T) {
 			rt.Fatalf("VALID PEER MESSAGE NOT ADMITTED: %s from share %d: %d subscriber calls", k.Name, share, calls)
 		}
 
-		alt := peerAlterations[rapid.IntRange(0, len(peerAlterations)-1).Draw(rt, "alteration")]
 		forceDomainFault := false
 		detail := ""
 		data := signedBy(gen(), v.shares[share])
@@ -457,7 +465,8 @@ func TestC10PeerPath(t *testing.T) {
 			must(err)
 			data = z
 		case "gated_slot":
-			duty.Slot = (1000/cl.bn.SPE + 3 + uint64(rapid.IntRange(0, 50).Draw(rt, "beyond"))) * cl.bn.SPE
+			// the first slots beyond the window (two future epochs are allowed), or further out
+			duty.Slot = (nowSlot/cl.bn.SPE+3)*cl.bn.SPE + uint64(rapid.SampledFrom([]int{0, 0, 1, 5, 31, 32, 1600}).Draw(rt, "beyond"))
 			if rapid.IntRange(0, 2).Draw(rt, "hugeSlot") == 0 {
 				// far beyond the window, including values whose signed interpretation is negative
 				duty.Slot = rapid.SampledFrom([]uint64{1 << 63, 1<<63 + 1000, 1<<63 + 1<<62, ^uint64(0), ^uint64(0) - 31, 1 << 62, 1 << 32, 1<<63 - 1}).Draw(rt, "hugeSlotValue")
